@@ -352,7 +352,12 @@ void tokens_prune(token * first, token * last) {
 	if (prev != NULL) {
 		prev->next = next;
 
-		fix_token_chain_tail(prev);
+		if (next == NULL) {
+			// The end of the chain was removed -- its head needs a new tail.
+			// (Otherwise the tail is untouched; walking the whole chain for
+			// every prune made long paragraphs quadratic.)
+			fix_token_chain_tail(prev);
+		}
 	}
 
 	if (next != NULL) {
